@@ -59,6 +59,12 @@ def c05(run, scratch):
         for v in (0, 1, 2047, 2048, 0xfff, 0x1000, 0x7ffff7ff, 0x7ffff800, 0x7fffffff, 0x80000000, 0xfffff7ff, 0xfffff800, 0xffffffff, 0x12345678):
             extra.append([item('li', 'li', a=rd, b=(v >> 16) & 0xffff, c=v & 0xffff)])
     progs += extra
+    # pseudo-instructions in context: every program of the control / far classes (TLC-enumerated, AsmProgs) - their pseudo items
+    # are executed too, so a pseudo jump whose label was mis-placed by ANOTHER item's bookkeeping is seen here as well
+    for cls, n, gaps in (('control', 3, [2]), ('far', 3, [2042, 2044, 2046, 2048]), ('far', 3, [1048568, 1048572, 1048576, 1048580])):
+        alpha, idx, r2 = layout.enumerate_programs(scratch, cls, n, gaps)
+        run.add_tlc('AsmProgs %s N=%d' % (cls, n), r2)
+        progs += [[alpha[j - 1] for j in p] for p in idx]
     recs = layout.assemble_all(progs, scratch)
     okc = sum(1 for x in recs if x['nc']['status'] == 'ok' and x['c']['status'] == 'ok')
     if okc < 0.7 * len(recs):
